@@ -87,6 +87,62 @@ Proof.
   induction ns as [|y t IH]; cbn; [tauto|]. destruct (N.eqb (label y) l); cbn; tauto.
 Qed.
 
+Lemma count_node_perm x l l' : Permutation l l' -> count_node x l = count_node x l'.
+Proof. intros HP. unfold count_node. apply Permutation_length, Permutation_filter_, HP. Qed.
+
+Lemma count_node_in x l : In x l -> (count_node x l > 0)%nat.
+Proof.
+  unfold count_node. induction l as [|y t IH]; cbn; [tauto|].
+  intros [->|H].
+  - rewrite (proj2 (node_eqb_eq x x) eq_refl). cbn. lia.
+  - destruct (node_eqb x y); cbn; [lia|auto].
+Qed.
+
+Lemma count_node_notin x l : ~ In x l -> count_node x l = 0%nat.
+Proof.
+  unfold count_node. induction l as [|y t IH]; cbn; [reflexivity|]. intros H.
+  destruct (node_eqb x y) eqn:E; [apply node_eqb_eq in E; subst; tauto|]. apply IH. tauto.
+Qed.
+
+Lemma count_node_nodup x l : NoDup l -> In x l -> count_node x l = 1%nat.
+Proof.
+  unfold count_node. induction 1 as [|y t Hnin ND IH]; cbn; [tauto|].
+  intros [->|H].
+  - rewrite (proj2 (node_eqb_eq x x) eq_refl). cbn. f_equal. apply count_node_notin, Hnin.
+  - destruct (node_eqb x y) eqn:E; [apply node_eqb_eq in E; subst; tauto|auto].
+Qed.
+
+(* with distinct nodes, same_nodesb is exactly "is a permutation" *)
+Lemma same_nodesb_perm l ns : NoDup ns -> same_nodesb l ns = true -> Permutation l ns.
+Proof.
+  unfold same_nodesb. rewrite andb_true_iff, forallb_forall, Nat.eqb_eq. intros ND [HL HC].
+  apply Permutation_sym. apply NoDup_Permutation_bis; [exact ND|lia|].
+  intros x Hx. specialize (HC _ Hx). apply Nat.eqb_eq in HC.
+  rewrite (count_node_nodup x ns ND Hx) in HC.
+  destruct (in_dec node_eq_dec x l) as [H|H]; [exact H|].
+  rewrite (count_node_notin x l H) in HC. discriminate.
+Qed.
+
+Lemma perm_same_nodesb l ns : Permutation l ns -> same_nodesb l ns = true.
+Proof.
+  intros HP. unfold same_nodesb. rewrite andb_true_iff, forallb_forall, Nat.eqb_eq. split.
+  - apply Permutation_length, HP.
+  - intros x _. apply Nat.eqb_eq, count_node_perm, HP.
+Qed.
+
+Lemma labels_nodupb_spec ns : labels_nodupb ns = true <-> NoDup (map label ns).
+Proof.
+  unfold labels_nodupb. induction (map label ns) as [|x t IH].
+  - split; [constructor|reflexivity].
+  - rewrite andb_true_iff, IH, negb_true_iff. split.
+    + intros [H ND]. constructor; [|exact ND]. intros Hin.
+      assert (existsb (N.eqb x) t = true) by (apply existsb_exists; exists x; split; [exact Hin|apply N.eqb_refl]).
+      congruence.
+    + intros ND. inversion ND as [|? ? Hnin ND']; subst. split; [|exact ND'].
+      destruct (existsb (N.eqb x) t) eqn:E; [|reflexivity].
+      apply existsb_exists in E. destruct E as (y & Hy & E). apply N.eqb_eq in E. subst. tauto.
+Qed.
+
 (* ---------- the ordering ---------- *)
 Section Facts.
   Variables key T : Type.
@@ -307,49 +363,6 @@ Section Facts.
     - apply IH; [exact ND'|]. eapply tie_free_incl; [|exact TF]. intros; now right.
   Qed.
 
-  Lemma count_node_perm x l l' : Permutation l l' -> count_node x l = count_node x l'.
-  Proof. intros HP. unfold count_node. apply Permutation_length, Permutation_filter_, HP. Qed.
-
-  Lemma count_node_in x l : In x l -> (count_node x l > 0)%nat.
-  Proof.
-    unfold count_node. induction l as [|y t IH]; cbn; [tauto|].
-    intros [->|H].
-    - rewrite (proj2 (node_eqb_eq x x) eq_refl). cbn. lia.
-    - destruct (node_eqb x y); cbn; [lia|auto].
-  Qed.
-
-  Lemma count_node_notin x l : ~ In x l -> count_node x l = 0%nat.
-  Proof.
-    unfold count_node. induction l as [|y t IH]; cbn; [reflexivity|]. intros H.
-    destruct (node_eqb x y) eqn:E; [apply node_eqb_eq in E; subst; tauto|]. apply IH. tauto.
-  Qed.
-
-  Lemma count_node_nodup x l : NoDup l -> In x l -> count_node x l = 1%nat.
-  Proof.
-    unfold count_node. induction 1 as [|y t Hnin ND IH]; cbn; [tauto|].
-    intros [->|H].
-    - rewrite (proj2 (node_eqb_eq x x) eq_refl). cbn. f_equal. apply count_node_notin, Hnin.
-    - destruct (node_eqb x y) eqn:E; [apply node_eqb_eq in E; subst; tauto|auto].
-  Qed.
-
-  (* with distinct nodes, same_nodesb is exactly "is a permutation" *)
-  Lemma same_nodesb_perm l ns : NoDup ns -> same_nodesb l ns = true -> Permutation l ns.
-  Proof.
-    unfold same_nodesb. rewrite andb_true_iff, forallb_forall, Nat.eqb_eq. intros ND [HL HC].
-    apply Permutation_sym. apply NoDup_Permutation_bis; [exact ND|lia|].
-    intros x Hx. specialize (HC _ Hx). apply Nat.eqb_eq in HC.
-    rewrite (count_node_nodup x ns ND Hx) in HC.
-    destruct (in_dec node_eq_dec x l) as [H|H]; [exact H|].
-    rewrite (count_node_notin x l H) in HC. discriminate.
-  Qed.
-
-  Lemma perm_same_nodesb l ns : Permutation l ns -> same_nodesb l ns = true.
-  Proof.
-    intros HP. unfold same_nodesb. rewrite andb_true_iff, forallb_forall, Nat.eqb_eq. split.
-    - apply Permutation_length, HP.
-    - intros x _. apply Nat.eqb_eq, count_node_perm, HP.
-  Qed.
-
   (* the oracle accepts the model's own list, ties or not *)
   Lemma is_orderingb_ordered ns k : is_orderingb ltb score ns k (ordered ns k) = true.
   Proof.
@@ -369,18 +382,6 @@ Section Facts.
     - apply sorted_descb_spec, HS.
   Qed.
 
-  Lemma labels_nodupb_spec ns : labels_nodupb ns = true <-> NoDup (map label ns).
-  Proof.
-    unfold labels_nodupb. induction (map label ns) as [|x t IH].
-    - split; [constructor|reflexivity].
-    - rewrite andb_true_iff, IH, negb_true_iff. split.
-      + intros [H ND]. constructor; [|exact ND]. intros Hin.
-        assert (existsb (N.eqb x) t = true) by (apply existsb_exists; exists x; split; [exact Hin|apply N.eqb_refl]).
-        congruence.
-      + intros ND. inversion ND as [|? ? Hnin ND']; subst. split; [|exact ND'].
-        destruct (existsb (N.eqb x) t) eqn:E; [|reflexivity].
-        apply existsb_exists in E. destruct E as (y & Hy & E). apply N.eqb_eq in E. subst. tauto.
-  Qed.
 End Facts.
 
 
